@@ -160,9 +160,17 @@ def run_subsets(job, res):
                     ip, op, rt = kw.get("in_prefix", ""), kw.get("out_prefix", ""), kw.get("retain", True)
                     if t.in_prefix != ip or t.out_prefix != op:
                         bad("in_prefix" if t.in_prefix != ip else "out_prefix", f"transport prefixes are {t.in_prefix!r}/{t.out_prefix!r}")
-                    t.send("1;2;1;0;2;1\n")
-                    if not pubs or pubs[-1][0] != f"{op}/1/2/1/0/2" or pubs[-1][3] is not rt:
-                        bad("retain" if pubs and pubs[-1][3] is not rt else "out_prefix", f"publish was {pubs[-1] if pubs else None!r}")
+                    # one outbound message of every command the gateway publishes (set, req, internal, stream/OTA, presentation)
+                    for out_line, topic in (("1;2;1;0;2;1\n", "/1/2/1/0/2"), ("1;2;2;0;2;\n", "/1/2/2/0/2"), ("1;255;3;0;13;\n", "/1/255/3/0/13"),
+                                            ("1;255;4;0;1;0100010008000A0B\n", "/1/255/4/0/1"), ("1;255;4;0;3;010001000000" + "AB" * 16 + "\n", "/1/255/4/0/3"),
+                                            ("1;255;0;0;19;\n", "/1/255/0/0/19")):
+                        n_p = len(pubs)
+                        t.send(out_line)
+                        res.count("mqtt_publishes_observed")
+                        if len(pubs) != n_p + 1 or pubs[-1][0] != f"{op}{topic}" or pubs[-1][3] is not rt:
+                            bad("retain" if len(pubs) > n_p and pubs[-1][3] is not rt else "out_prefix",
+                                f"publish of {out_line.strip()!r} was {pubs[-1] if len(pubs) > n_p else None!r}")
+                            break
                     gw.init_topics() if hasattr(gw, "init_topics") else None
                     if not subs or not all(s[0].startswith(ip + "/") for s in subs):
                         bad("in_prefix", f"subscriptions {[s[0] for s in subs][:3]!r}")
